@@ -690,9 +690,10 @@ async def load_scripts(
     # __init__.py or module/app .py file, and delete everything else
     #
     done = set()
-    for global_ctx_name, src_info in ctx2files.items():
-        if not src_info.force:
-            continue
+    changed = [global_ctx_name for global_ctx_name, src_info in ctx2files.items() if src_info.force]
+    # a deleted file of an app or module package is a change in that package too
+    changed += [global_ctx_name for global_ctx_name in ctx_delete if global_ctx_name not in ctx2files]
+    for global_ctx_name in changed:
         if not global_ctx_name.startswith("apps.") and not global_ctx_name.startswith("modules."):
             continue
         parts = global_ctx_name.split(".")
